@@ -109,6 +109,7 @@ class Conv:
     def event(self, ev):
         k = ev["e"]
         if k == "htlc": return "(GHtlc %s)" % self.request(ev)
+        if k == "burst": return "(GBurst %s)" % coq_list([self.request(it) for it in ev["items"]])
         if k == "proc":
             f = {"none": "NoFault", "rej": "Rejected", "abe": "AppliedButError"}[ev.get("fault", "none")]
             return "(GEv %d%%nat (EvProcess %d%%nat %s))" % (ev["h"], ev["c"], f)
